@@ -319,6 +319,12 @@ func HarnessC19Prune() {
 		s.AdditionalProperties = &spec.SchemaOrBool{Allows: true}
 	}
 	obj := map[string]interface{}{}
+	if s.Properties != nil && verifBool() {
+		// a described member whose value is null (its schema has no type, so null is valid): it stays
+		s.Properties["n"] = spec.Schema{}
+		obj["n"] = nil
+		keys = append(keys, "n")
+	}
 	if verifBool() {
 		obj["a"] = 1.0
 	}
@@ -355,7 +361,7 @@ func HarnessC19Prune() {
 
 // HarnessC19Nested: pruning inside nested objects and array elements (items and tuple items)
 func HarnessC19Nested() {
-	inner := objWith(map[string]spec.Schema{"a": numSchema(nil)})
+	inner := objWith(map[string]spec.Schema{"a": numSchema(nil), "n": {}})
 	s := spec.Schema{}
 	el := map[string]interface{}{}
 	if verifBool() {
@@ -363,6 +369,9 @@ func HarnessC19Nested() {
 	}
 	if verifBool() {
 		el["z"] = 2.0
+	}
+	if verifBool() {
+		el["n"] = nil // described, null-valued: stays
 	}
 	before := copyObj(el)
 	var data interface{}
@@ -415,7 +424,7 @@ func HarnessC19Nested() {
 	res := validate.NewSchemaValidator(&s, nil, "", nil).Validate(data)
 	verifAssume(res.IsValid())
 	Prune(res)
-	checkPrunedAt(want, before, el, []string{"a", "z"})
+	checkPrunedAt(want, before, el, []string{"a", "z", "n"})
 	if top, ok := data.(map[string]interface{}); ok {
 		if w, wrapped := top["w"].(map[string]interface{}); wrapped {
 			top = w
